@@ -53,6 +53,13 @@ claim("C13", "Coq theorems over Generated/Wiring.v (regenerated from /repo/src e
 claim("C20", "Coq theorems: one exact (iff) characterisation per documented precondition of the first error returned -- missing ranking, tied position, non-integer weights (PluralityVeto, random transfer), missing scores, m range (m = n accepted), Alaska stage order, score vector, rating limits, quota name, duplicate candidates -- and no partial result (sum type); generator-side checks (bloc proportions, cohesion rows, bloc names, overlapping intervals) are modelled and validated by correspondence; malformed-stream correspondence on every rule.",
       COMMON_NOTE + "round(sum, 8) != 1 is modelled as |sum - 1| >= 5e-9 with generated cases kept clear of the boundary; the generator-side clauses have a model + correspondence but no separate theorem (they are direct boolean tests).")
 
+claim("C01", "Coq theorems for the STV family on every valid profile, m, configuration and script: round invariant (partition of the candidates, weight bound), exactly m distinct winners, permanent status, termination (never out of fuel), no over-election and exact error characterisation under Droop with the fractional/random transfer, plus machine-checked refutations (Hare / SequentialRCV over-election, random-transfer shortage, Hare zero quota) that are recorded known findings; one-shot rules via the proved top-m election spec (C04/C05), DominatingSets/CondoBorda via C06; per-run correspondence of all 21 election classes incl. PluralityVeto, RandomDictator and BoostedRandomDictator under recorded random streams.",
+      COMMON_NOTE + "count/partition for TopTwo, Alaska, the dictators and PluralityVeto are decided by the per-run oracle + correspondence (their models have no separate run-level theorem). Known findings listed in known_findings.json.")
+claim("C02", "Coq theorems for all valid profiles and scripts: threshold = floor(N/(m+1))+1 / floor(N/m), computed once; every successful step is exactly one of election (simultaneous: exactly the reachers; one-by-one: a maximal-tally candidate, ties only via a recorded tiebreak, ValueError without one), default election, or elimination of a minimal-tally candidate (ties by lowest initial first-place tally, then recorded random order); per-ranking transfer law weight*(tally-t)/tally (full weight for SequentialRCV) for any number of simultaneous winners; reported tallies/order are the first-place weights of the resulting ballots. Per-run: model correspondence and an independent reference count written from the property text, compared round by round.",
+      COMMON_NOTE)
+claim("C08", "Coq theorems: neutrality of EVERY rule and utility as an exact commutation with any equality-respecting renaming (free theorem obtained with Paramcoq, re-checked by the kernel, no axioms); anonymity/representation independence (reordering, splitting, merging, condensing, candidate order) for scoring utilities, one-shot rules and whole STV runs on the deterministic path; per-run correspondence plus metamorphic re-runs (hostile renamings, shuffles, splits, merges, candidate tuples) and re-runs in fresh interpreters under other PYTHONHASHSEED values.",
+      COMMON_NOTE + "Hash-seed independence is decided by differential execution across interpreters (no counterpart in the model). Anonymity theorems for TopTwo/Alaska/DominatingSets/CondoBorda at rule level are not stated (only their building blocks); the metamorphic oracle covers them.")
+
 PENDING_REASON = "check under construction in this round (model/proofs being built); will be claimed once its check is live"
 
 checks = []
